@@ -22,6 +22,7 @@ import Mathlib.Tactic.Ring
 import Mathlib.Tactic.FieldSimp
 import Mathlib.Tactic.Positivity
 import Mathlib.Tactic.NormNum
+import Mathlib.Tactic.IntervalCases
 
 set_option linter.unusedSectionVars false
 
@@ -598,5 +599,433 @@ theorem ent_jointOf (p : List ℝ) (W : List (List ℝ)) (n m : ℕ) (hp : p.len
   simp [ent, vec, jointOf, List.getD_eq_getElem?_getD, hxp, hxW, hyW]
 
 end Joint
+
+/-! ### `jointMI` of `Q_xy = p_x W_xy` is `channelMI p W`; the rate–distortion bound on lists -/
+
+section RDList
+
+theorem row_sum_ent (W : List (List ℝ)) (n m : ℕ) (hW : IsMat W n m)
+    (hs : ∀ row ∈ W, row.sum = 1) (x : ℕ) (hx : x < n) : ∑ y ∈ range m, ent W x y = 1 := by
+  have hmem : W.getD x [] ∈ W := getD_mem W [] x (by rw [hW.len]; exact hx)
+  have := sum_map_range (fun a => a) 0 (W.getD x []) m (hW.row _ hmem)
+  rw [List.map_id', hs _ hmem] at this
+  exact this.symm
+
+theorem jointMI_eq_channelMI (p : List ℝ) (W Q : List (List ℝ)) (n m : ℕ) (hp : p.length = n)
+    (hW : IsMat W n m) (hWs : ∀ row ∈ W, row.sum = 1) (hQ : IsMat Q n m)
+    (hQe : ∀ x < n, ∀ y < m, ent Q x y = vec p x * ent W x y) :
+    jointMI (Real.logb 2) Q = channelMI (Real.logb 2) p W := by
+  rw [jointMI_eq Q n m hQ, channelMI_eq p W n m hp hW]
+  apply sum_congr rfl
+  intro x hx
+  have hx' : x < n := mem_range.mp hx
+  rw [mul_sum]
+  apply sum_congr rfl
+  intro y hy
+  have hy' : y < m := mem_range.mp hy
+  have hrow : ∑ y' ∈ range m, ent Q x y' = vec p x := by
+    rw [sum_congr rfl (fun y' hy' => hQe x hx' y' (mem_range.mp hy')), ← mul_sum,
+      row_sum_ent W n m hW hWs x hx', mul_one]
+  have hcol : ∑ x' ∈ range n, ent Q x' y = ∑ x' ∈ range n, vec p x' * ent W x' y :=
+    sum_congr rfl (fun x' hx'' => hQe x' (mem_range.mp hx'') y hy')
+  rw [vec_rowSums Q n m hQ x hx', vec_colSums Q n m hQ y hy', vec_outputLaw p W n m hp hW,
+    hrow, hcol, hQe x hx' y hy']
+  by_cases h : vec p x = 0
+  · simp [h]
+  · rw [mul_div_mul_left _ _ h, mul_assoc]
+
+theorem rowSums_eq (p : List ℝ) (W Q : List (List ℝ)) (n m : ℕ) (hp : p.length = n)
+    (hW : IsMat W n m) (hWs : ∀ row ∈ W, row.sum = 1) (hQ : IsMat Q n m)
+    (hQe : ∀ x < n, ∀ y < m, ent Q x y = vec p x * ent W x y) : rowSums Q = p := by
+  apply List.ext_getElem
+  · simp [rowSums, hQ.len, hp]
+  · intro x h1 h2
+    have hx : x < n := by omega
+    have e1 := vec_rowSums Q n m hQ x hx
+    rw [sum_congr rfl (fun y' hy' => hQe x hx y' (mem_range.mp hy')), ← mul_sum,
+      row_sum_ent W n m hW hWs x hx, mul_one] at e1
+    simpa [vec, List.getD_eq_getElem?_getD, List.getElem?_eq_getElem h1,
+      List.getElem?_eq_getElem h2] using e1
+
+theorem colSums_getD (p : List ℝ) (W Q : List (List ℝ)) (n m : ℕ) (hp : p.length = n)
+    (hW : IsMat W n m) (hQ : IsMat Q n m)
+    (hQe : ∀ x < n, ∀ y < m, ent Q x y = vec p x * ent W x y) (y : ℕ) (hy : y < m) :
+    vec (colSums Q) y = vec (outputLaw p W) y := by
+  rw [vec_colSums Q n m hQ y hy, vec_outputLaw p W n m hp hW]
+  exact sum_congr rfl (fun x' hx'' => hQe x' (mem_range.mp hx'') y hy)
+
+/-- The Csiszár / Berger bound in terms of the Core quantities, multipliers as a function. -/
+theorem rd_dual_fn (p : List ℝ) (W d Q : List (List ℝ)) (lam : ℕ → ℝ) (β : ℝ) (n m : ℕ)
+    (hp : IsLaw p n) (hW : IsChannel W n m) (hd : IsMat d n m) (hQ : IsMat Q n m)
+    (hQe : ∀ x < n, ∀ y < m, ent Q x y = vec p x * ent W x y)
+    (hlam : ∀ x < n, 0 < lam x)
+    (hc : ∀ y < m, ∑ x ∈ range n, vec p x * lam x * (2 : ℝ) ^ (-(β * ent d x y)) ≤ 1) :
+    ∑ x ∈ range n, vec p x * Real.logb 2 (lam x)
+      ≤ jointMI (Real.logb 2) Q + β * expDistortion Q d := by
+  have hWs : ∀ row ∈ W, row.sum = 1 := fun row hr => (hW.row row hr).sum_one
+  rw [jointMI_eq_channelMI p W Q n m hp.len hW.isMat hWs hQ hQe,
+    channelMI_eq p W n m hp.len hW.isMat, expDistortion_eq Q d n m hQ hd]
+  simp only [vec_outputLaw p W n m hp.len hW.isMat]
+  have h := rd_core (range n) (range m) (vec p) (ent W) (ent d) lam β
+    (fun x _ => hp.vec_nonneg x) hp.sum_vec (fun x _ y _ => hW.ent_nonneg x y)
+    (fun x hx => hW.sum_ent (mem_range.mp hx)) (fun x hx => hlam x (mem_range.mp hx))
+    (fun y hy => hc y (mem_range.mp hy))
+  refine le_trans h (le_of_eq ?_)
+  congr 2
+  apply sum_congr rfl; intro x hx
+  apply sum_congr rfl; intro y hy
+  rw [hQe x (mem_range.mp hx) y (mem_range.mp hy)]
+
+/-- The multiplier used by `rdLowerBound`: `λ_x = 1 / Σ_y q_y 2^{−β d_xy}`. -/
+noncomputable def lamOf (β : ℝ) (q : List ℝ) (d : List (List ℝ)) (m x : ℕ) : ℝ :=
+  1 / ∑ y ∈ range m, vec q y * (2 : ℝ) ^ (-(β * ent d x y))
+
+/-- The column constraint values `c_y = Σ_x p_x λ_x 2^{−β d_xy}`. -/
+noncomputable def cOf (β : ℝ) (p q : List ℝ) (d : List (List ℝ)) (n m y : ℕ) : ℝ :=
+  ∑ x ∈ range n, vec p x * lamOf β q d m x * (2 : ℝ) ^ (-(β * ent d x y))
+
+theorem rdLowerBound_eq (β : ℝ) (p q : List ℝ) (d : List (List ℝ)) (n m : ℕ)
+    (hp : p.length = n) (hq : q.length = m) (hd : IsMat d n m) :
+    rdLowerBound (Real.logb 2) (fun x => (2 : ℝ) ^ x) β p q d
+      = ∑ x ∈ range n, vec p x * Real.logb 2 (lamOf β q d m x)
+        - Real.logb 2 (lmaxOf ((List.range m).map (cOf β p q d n m))) := by
+  unfold rdLowerBound
+  simp only
+  set L : List ℝ := d.map (fun dr => 1 / lsum (List.zipWith
+    (fun qy dxy => qy * (2 : ℝ) ^ (-(β * dxy))) q dr)) with hL
+  have hLlen : L.length = n := by simp [hL, hd.len]
+  have hLx : ∀ x < n, L.getD x 0 = lamOf β q d m x := by
+    intro x hx
+    have hx' : x < d.length := by rw [hd.len]; exact hx
+    rw [hL, List.getD_eq_getElem?_getD, List.getElem?_map, List.getElem?_eq_getElem hx']
+    simp only [Option.map_some, Option.getD_some]
+    rw [lsum_eq_sum, sum_zipWith_range _ 0 0 q d[x] m hq (hd.row _ (List.getElem_mem hx'))]
+    simp [lamOf, ent, vec, List.getD_eq_getElem?_getD, List.getElem?_eq_getElem hx']
+  congr 1
+  · rw [lsum_eq_sum, sum_zipWith_range _ 0 0 p L n hp hLlen]
+    apply sum_congr rfl
+    intro x hx
+    rw [guard, hLx x (mem_range.mp hx)]; rfl
+  · congr 2
+    rw [hq]
+    apply List.map_congr_left
+    intro y _
+    rw [lsum_eq_sum, sum_zipWith_range _ 0 (0, []) p (L.zip d) n hp (by simp [hLlen, hd.len])]
+    apply sum_congr rfl
+    intro x hx
+    have hx' : x < n := mem_range.mp hx
+    have hz : (L.zip d).getD x (0, []) = (L.getD x 0, d.getD x []) := by
+      have h1 : x < L.length := by omega
+      have h2 : x < d.length := by rw [hd.len]; exact hx'
+      simp [List.getD_eq_getElem?_getD, h1, h2]
+    rw [hz, hLx x hx']
+    rfl
+
+theorem weighted_pos (n : ℕ) (p a : ℕ → ℝ) (hp : ∀ x ∈ range n, 0 ≤ p x)
+    (hs : ∑ x ∈ range n, p x = 1) (ha : ∀ x ∈ range n, 0 < a x) :
+    0 < ∑ x ∈ range n, p x * a x := by
+  apply sum_pos' (fun x hx => mul_nonneg (hp x hx) (ha x hx).le)
+  by_contra hne
+  push Not at hne
+  have h0 : ∀ x ∈ range n, p x = 0 := by
+    intro x hx
+    have h1 := hne x hx
+    have h2 := hp x hx
+    by_contra h3
+    have : 0 < p x * a x := mul_pos (lt_of_le_of_ne h2 (Ne.symm h3)) (ha x hx)
+    linarith
+  rw [sum_eq_zero h0] at hs
+  exact zero_ne_one hs
+
+/-- The model's normalised certificate is a lower bound for every test channel. -/
+theorem rd_certificate (p q : List ℝ) (W d Q : List (List ℝ)) (β : ℝ) (n m : ℕ)
+    (hp : IsLaw p n) (hW : IsChannel W n m) (hd : IsMat d n m) (hQ : IsMat Q n m)
+    (hQe : ∀ x < n, ∀ y < m, ent Q x y = vec p x * ent W x y)
+    (hq : q.length = m) (hqpos : ∀ a ∈ q, 0 < a) :
+    rdLowerBound (Real.logb 2) (fun x => (2 : ℝ) ^ x) β p q d
+      ≤ jointMI (Real.logb 2) Q + β * expDistortion Q d := by
+  rw [rdLowerBound_eq β p q d n m hp.len hq hd]
+  have hn : 0 < n := hp.pos_len
+  have hm : 0 < m := (hW.row_law hn).pos_len
+  have h2pos : ∀ e : ℝ, 0 < (2 : ℝ) ^ e := fun e => Real.rpow_pos_of_pos (by norm_num) _
+  have hqv : ∀ y < m, 0 < vec q y := fun y hy => hqpos _ (getD_mem q 0 y (by omega))
+  have hlam : ∀ x, 0 < lamOf β q d m x := by
+    intro x
+    unfold lamOf
+    apply one_div_pos.mpr
+    apply sum_pos (fun y hy => mul_pos (hqv y (mem_range.mp hy)) (h2pos _))
+    exact ⟨0, mem_range.mpr hm⟩
+  set c : List ℝ := (List.range m).map (cOf β p q d n m) with hc
+  have hclen : c.length = m := by simp [hc]
+  have hcy : ∀ y < m, cOf β p q d n m y ≤ lmaxOf c := by
+    intro y hy
+    have := getD_le_lmaxOf c y (by omega)
+    have e : c.getD y 0 = cOf β p q d n m y := vec_range_map m _ y hy
+    rwa [e] at this
+  have hc0 : 0 < cOf β p q d n m 0 := by
+    unfold cOf
+    simp only [mul_assoc]
+    exact weighted_pos n (vec p) _ (fun x _ => hp.vec_nonneg x) hp.sum_vec
+      (fun x _ => mul_pos (hlam x) (h2pos _))
+  have hM : 0 < lmaxOf c := lt_of_lt_of_le hc0 (hcy 0 hm)
+  have h := rd_dual_fn p W d Q (fun x => lamOf β q d m x / lmaxOf c) β n m hp hW hd hQ hQe
+    (fun x _ => div_pos (hlam x) hM)
+    (fun y hy => by
+      have e : ∑ x ∈ range n, vec p x * (lamOf β q d m x / lmaxOf c) *
+          (2 : ℝ) ^ (-(β * ent d x y)) = cOf β p q d n m y / lmaxOf c := by
+        unfold cOf
+        rw [sum_div]
+        apply sum_congr rfl; intro x _
+        ring
+      rw [e]
+      exact (div_le_one hM).mpr (hcy y hy))
+  refine le_trans (le_of_eq ?_) h
+  have e : ∀ x ∈ range n, vec p x * Real.logb 2 (lamOf β q d m x / lmaxOf c)
+      = vec p x * Real.logb 2 (lamOf β q d m x) - vec p x * Real.logb 2 (lmaxOf c) := by
+    intro x _
+    rw [Real.logb_div (hlam x).ne' hM.ne']; ring
+  rw [sum_congr rfl e, sum_sub_distrib, ← sum_mul, hp.sum_vec, one_mul]
+
+end RDList
+
+/-! ### One Blahut–Arimoto step -/
+
+section BA
+
+theorem zipWith_pos {β γ : Type} (f : β → γ → ℝ) (hf : ∀ a b, 0 < f a b) (l1 : List β)
+    (l2 : List γ) : ∀ a ∈ List.zipWith f l1 l2, 0 < a := by
+  induction l1 generalizing l2 with
+  | nil => simp
+  | cons a l1 ih =>
+    cases l2 with
+    | nil => simp
+    | cons b l2 =>
+      intro c hc
+      rw [List.zipWith_cons_cons] at hc
+      rcases List.mem_cons.mp hc with rfl | hc
+      · exact hf a b
+      · exact ih l2 c hc
+
+theorem sum_map_div (l : List ℝ) (c : ℝ) : (l.map (· / c)).sum = l.sum / c := by
+  induction l with
+  | nil => simp
+  | cons a l ih => rw [List.map_cons, List.sum_cons, List.sum_cons, ih, add_div]
+
+end BA
+
+/-! ### Closed forms: concrete channels -/
+
+section Closed
+
+/-- Row divergences from the entrywise formula. -/
+theorem klRow_of_ent (P : List (List ℝ)) (q : List ℝ) (n m : ℕ) (hP : IsMat P n m)
+    (hq : q.length = m) (C : ℝ)
+    (h : ∀ x < n, ∑ y ∈ range m, ent P x y * Real.logb 2 (ent P x y / vec q y) = C) :
+    ∀ px ∈ P, klRow (Real.logb 2) px q = C := by
+  intro px hpx
+  obtain ⟨i, hi, rfl⟩ := List.mem_iff_getElem.mp hpx
+  have hi' : i < n := by rw [← hP.len]; exact hi
+  have := klRows_getD P q n m hP hq i hi'
+  rw [h i hi'] at this
+  simpa [List.getD_eq_getElem?_getD, hi] using this
+
+theorem half_law : IsLaw [(1 : ℝ) / 2, 1 / 2] 2 :=
+  ⟨rfl, by intro a ha; simp at ha; rw [ha]; norm_num, by norm_num⟩
+
+theorem term_half (a : ℝ) : a * Real.logb 2 (a / (1 / 2)) = a * Real.logb 2 a + a := by
+  by_cases h : a = 0
+  · simp [h]
+  · rw [Real.logb_div h (by norm_num), one_div, Real.logb_inv,
+      Real.logb_self_eq_one (by norm_num)]
+    ring
+
+theorem term_self (a : ℝ) : a * Real.logb 2 (a / a) = 0 := by
+  by_cases h : a = 0
+  · simp [h]
+  · rw [div_self h, Real.logb_one, mul_zero]
+
+theorem term_double (a : ℝ) : a * Real.logb 2 (a / (a / 2)) = a := by
+  by_cases h : a = 0
+  · simp [h]
+  · have : a / (a / 2) = 2 := by field_simp
+    rw [this, Real.logb_self_eq_one (by norm_num), mul_one]
+
+/-! Binary symmetric channel. -/
+
+/-- The binary symmetric channel with crossover probability `e`. -/
+def bsc (e : ℝ) : List (List ℝ) := [[1 - e, e], [e, 1 - e]]
+
+theorem bsc_isChannel (e : ℝ) (h0 : 0 ≤ e) (h1 : e ≤ 1) : IsChannel (bsc e) 2 2 := by
+  refine ⟨rfl, ?_⟩
+  intro row hrow
+  simp [bsc] at hrow
+  rcases hrow with rfl | rfl
+  · refine ⟨rfl, ?_, by simp⟩
+    intro a ha; simp at ha; rcases ha with rfl | rfl <;> linarith
+  · refine ⟨rfl, ?_, by simp⟩
+    intro a ha; simp at ha; rcases ha with rfl | rfl <;> linarith
+
+theorem bsc_out (e : ℝ) : outputLaw [(1 : ℝ) / 2, 1 / 2] (bsc e) = [1 / 2, 1 / 2] := by
+  simp [bsc, outputLaw, lsum, List.range_succ]
+  constructor <;> ring
+
+theorem klRow_half (a b : ℝ) : klRow (Real.logb 2) [a, b] [1 / 2, 1 / 2]
+    = a * Real.logb 2 a + b * Real.logb 2 b + (a + b) := by
+  simp only [klRow, lsum, List.zipWith_cons_cons, List.zipWith_nil_right, List.foldl_cons,
+    List.foldl_nil, guard]
+  rw [term_half, term_half]; ring
+
+theorem entropy_two (a b : ℝ) :
+    entropyVals (Real.logb 2) [a, b] = -(a * Real.logb 2 a + b * Real.logb 2 b) := by
+  simp only [entropyVals, plogp, lsum, List.map_cons, List.map_nil, List.foldl_cons,
+    List.foldl_nil, guard]
+  ring
+
+theorem bsc_rows (e : ℝ) : ∀ px ∈ bsc e, klRow (Real.logb 2) px
+    (outputLaw [(1 : ℝ) / 2, 1 / 2] (bsc e)) = 1 - entropyVals (Real.logb 2) [e, 1 - e] := by
+  intro px hpx
+  rw [bsc_out, entropy_two]
+  simp [bsc] at hpx
+  rcases hpx with rfl | rfl
+  · rw [klRow_half]; ring
+  · rw [klRow_half]; ring
+
+/-! Binary erasure channel. -/
+
+/-- The binary erasure channel with erasure probability `ε` (outputs `0, erased, 1`). -/
+def bec (ε : ℝ) : List (List ℝ) := [[1 - ε, ε, 0], [0, ε, 1 - ε]]
+
+theorem bec_isChannel (ε : ℝ) (h0 : 0 ≤ ε) (h1 : ε ≤ 1) : IsChannel (bec ε) 2 3 := by
+  refine ⟨rfl, ?_⟩
+  intro row hrow
+  simp [bec] at hrow
+  rcases hrow with rfl | rfl
+  · refine ⟨rfl, ?_, by simp⟩
+    intro a ha; simp at ha; rcases ha with rfl | rfl | rfl <;> linarith
+  · refine ⟨rfl, ?_, by simp⟩
+    intro a ha; simp at ha; rcases ha with rfl | rfl | rfl <;> linarith
+
+theorem bec_out (ε : ℝ) :
+    outputLaw [(1 : ℝ) / 2, 1 / 2] (bec ε) = [(1 - ε) / 2, ε, (1 - ε) / 2] := by
+  simp [bec, outputLaw, lsum, List.range_succ]
+  refine ⟨by ring, by ring, by ring⟩
+
+theorem bec_rows (ε : ℝ) : ∀ px ∈ bec ε, klRow (Real.logb 2) px
+    (outputLaw [(1 : ℝ) / 2, 1 / 2] (bec ε)) = 1 - ε := by
+  intro px hpx
+  rw [bec_out]
+  simp [bec] at hpx
+  rcases hpx with rfl | rfl
+  · simp only [klRow, lsum, List.zipWith_cons_cons, List.zipWith_nil_right, List.foldl_cons,
+      List.foldl_nil, guard]
+    rw [term_double, term_self]; ring
+  · simp only [klRow, lsum, List.zipWith_cons_cons, List.zipWith_nil_right, List.foldl_cons,
+      List.foldl_nil, guard]
+    rw [term_double, term_self]; ring
+
+theorem bec_dom (ε : ℝ) : ∀ x < 2, ∀ y < 3,
+    vec (outputLaw [(1 : ℝ) / 2, 1 / 2] (bec ε)) y = 0 → ent (bec ε) x y = 0 := by
+  intro x hx y hy
+  rw [bec_out]
+  interval_cases x <;> interval_cases y <;> simp [vec, ent, bec]
+
+/-! Noiseless channel. -/
+
+/-- The identity (noiseless) channel on `n` letters. -/
+def identityChannel (n : ℕ) : List (List ℝ) :=
+  (List.range n).map (fun i => (List.range n).map (fun j => if i = j then (1 : ℝ) else 0))
+
+/-- The uniform law on `n` letters. -/
+noncomputable def uniformLaw (n : ℕ) : List ℝ := List.replicate n (1 / (n : ℝ))
+
+theorem uniformLaw_isLaw (n : ℕ) (hn : 0 < n) : IsLaw (uniformLaw n) n := by
+  refine ⟨by simp [uniformLaw], ?_, ?_⟩
+  · intro a ha
+    rw [uniformLaw, List.mem_replicate] at ha
+    rw [ha.2]; positivity
+  · have : (n : ℝ) ≠ 0 := by positivity
+    simp [uniformLaw, List.sum_replicate, this]
+
+theorem vec_uniformLaw (n x : ℕ) (hx : x < n) : vec (uniformLaw n) x = 1 / (n : ℝ) := by
+  simp [vec, uniformLaw, List.getD_eq_getElem?_getD, hx]
+
+theorem identity_getD (n x : ℕ) (hx : x < n) :
+    (identityChannel n).getD x []
+      = (List.range n).map (fun j => if x = j then (1 : ℝ) else 0) := by
+  simp [identityChannel, List.getD_eq_getElem?_getD, hx]
+
+theorem ent_identity (n x y : ℕ) (hx : x < n) (hy : y < n) :
+    ent (identityChannel n) x y = if x = y then 1 else 0 := by
+  unfold ent
+  rw [identity_getD n x hx, vec_range_map n _ y hy]
+
+theorem identity_isChannel (n : ℕ) : IsChannel (identityChannel n) n n := by
+  refine ⟨by simp [identityChannel], ?_⟩
+  intro row hrow
+  obtain ⟨i, hi, rfl⟩ := List.mem_map.mp hrow
+  have hi' : i < n := List.mem_range.mp hi
+  apply isLaw_of_vec _ _ (by simp)
+  · intro y hy
+    rw [vec_range_map n _ y hy]; split <;> norm_num
+  · rw [sum_congr rfl (fun y hy => vec_range_map n _ y (mem_range.mp hy))]
+    rw [sum_ite_eq]; simp [hi']
+
+theorem vec_out_identity (n y : ℕ) (hn : 0 < n) (hy : y < n) :
+    vec (outputLaw (uniformLaw n) (identityChannel n)) y = 1 / (n : ℝ) := by
+  rw [vec_outputLaw _ _ n n (uniformLaw_isLaw n hn).len (identity_isChannel n).isMat]
+  have : ∀ x ∈ range n, vec (uniformLaw n) x * ent (identityChannel n) x y
+      = if x = y then 1 / (n : ℝ) else 0 := by
+    intro x hx
+    rw [vec_uniformLaw n x (mem_range.mp hx), ent_identity n x y (mem_range.mp hx) hy]
+    split <;> simp
+  rw [sum_congr rfl this, sum_ite_eq']; simp [hy]
+
+theorem noiseless_rows (n : ℕ) (hn : 0 < n) :
+    ∀ px ∈ identityChannel n, klRow (Real.logb 2) px
+      (outputLaw (uniformLaw n) (identityChannel n)) = Real.logb 2 n := by
+  apply klRow_of_ent _ _ n n (identity_isChannel n).isMat
+    (outputLaw_length _ _ n n (identity_isChannel n).isMat hn)
+  intro x hx
+  have : ∀ y ∈ range n, ent (identityChannel n) x y * Real.logb 2
+      (ent (identityChannel n) x y / vec (outputLaw (uniformLaw n) (identityChannel n)) y)
+      = if x = y then Real.logb 2 n else 0 := by
+    intro y hy
+    rw [ent_identity n x y hx (mem_range.mp hy), vec_out_identity n y hn (mem_range.mp hy)]
+    split
+    · simp
+    · simp
+  rw [sum_congr rfl this, sum_ite_eq]; simp [hx]
+
+theorem noiseless_dom (n : ℕ) (hn : 0 < n) : ∀ x < n, ∀ y < n,
+    vec (outputLaw (uniformLaw n) (identityChannel n)) y = 0
+      → ent (identityChannel n) x y = 0 := by
+  intro x _ y hy h
+  rw [vec_out_identity n y hn hy] at h
+  have : (0 : ℝ) < 1 / (n : ℝ) := by positivity
+  linarith
+
+/-! Useless channel: all rows equal. -/
+
+theorem useless_mi (r : List ℝ) (P : List (List ℝ)) (p0 : List ℝ) (n m : ℕ) (hr : IsLaw r n)
+    (hP : IsMat P n m) (hrows : ∀ row ∈ P, row = p0) : channelMI (Real.logb 2) r P = 0 := by
+  have hent : ∀ x < n, ∀ y, ent P x y = vec p0 y := by
+    intro x hx y
+    unfold ent
+    rw [hrows _ (getD_mem P [] x (by rw [hP.len]; exact hx))]
+  have hout : ∀ y, vec (outputLaw r P) y = vec p0 y := by
+    intro y
+    rw [vec_outputLaw r P n m hr.len hP,
+      sum_congr rfl (fun x hx => by rw [hent x (mem_range.mp hx) y]), ← sum_mul, hr.sum_vec,
+      one_mul]
+  rw [channelMI_eq r P n m hr.len hP]
+  apply sum_eq_zero
+  intro x hx
+  have : ∑ y ∈ range m, ent P x y * Real.logb 2 (ent P x y / vec (outputLaw r P) y) = 0 := by
+    apply sum_eq_zero
+    intro y _
+    rw [hout y, hent x (mem_range.mp hx) y, term_self]
+  rw [this, mul_zero]
+
+end Closed
 
 end Dit.Lemmas.Channel
